@@ -51,6 +51,11 @@ class Lock:
 # ----------------------------------------------------------------------------- Coq side
 
 def coq_sources():
+    """the development = the files listed in coq/FILES (a stable list: work-in-progress files of
+    proof workers are not part of it until they are added there)"""
+    lst = os.path.join(COQ, "FILES")
+    if os.path.exists(lst):
+        return [l.strip() for l in open(lst) if l.strip()]
     out = []
     for d in ("Base", "Model", "Proofs", "Props", "Extract"):
         out += sorted(glob.glob(os.path.join(COQ, d, "*.v")))
@@ -349,11 +354,11 @@ def shrink(hist_text, workdir, pred, budget_s=120):
 # ----------------------------------------------------------------------------- known findings
 
 DIRECT_EXTRA = {
-    "C07": {"inv", "readpaths"}, "C18": {"marks"}, "C04": {"reopen-diff", "fatal"}, "C15": {"drop-outside", "drop-added"},
+    "C01": {"point-read", "table-get"}, "C07": {"inv", "readpaths"}, "C18": {"marks"}, "C04": {"reopen-diff", "fatal"}, "C15": {"drop-outside", "drop-added"},
     "C19": {"fifo-deeper-level", "fifo-expired-kept", "fifo-not-oldest", "fifo-within-limits"},
-    "C12": {"impl-iter", "impl-iter-rev", "point-read", "bloom-false-negative", "readpaths"},
+    "C12": {"impl-iter", "impl-iter-rev", "point-read", "bloom-false-negative", "readpaths", "table-get", "block-content"},
     "C11": {"config-diff"}, "C08": {"resolve", "dangling-pointer", "config-diff"}, "C09": {"gc-stats", "gc-ghost", "stale-bytes", "dead-file-kept", "gc-reopen", "blob-count", "dangling-pointer"},
-    "C14": {"ingest-missing"}, "C17": {"filter-unknown-item"}, "C10": {"corrupt-different", "corrupt-hang"}, "C06": {"resolve-sv"},
+    "C14": {"ingest-missing", "table-get"}, "C17": {"filter-unknown-item"}, "C10": {"corrupt-different", "corrupt-hang"}, "C06": {"resolve-sv"},
 }
 
 
@@ -422,19 +427,24 @@ TREE_NONTRIVIAL = lambda st: st.get("flush_steps", 0) >= 1 and st.get("merge_ste
 
 # kinds every tree-level property listens to in addition to its own
 COMMON_KINDS = {"panic", "fatal", "err", "runner-crash", "parse", "truncated", "nolatest"}
+# block structure of real tables (harness dump TB/BH/be/TG lines, Model/BlockIndex.v)
+BLOCK_KINDS = {"block-index", "block-content", "table-get"}
 
 PROPS = {
-    "C01": dict(engine="tree", profiles=[("tree", 4, False), ("lvl", 4, False), ("moves", 1, False), ("tree", 1, True)], n_ops=120,
-                quick=500, thorough=6000,
-                relevant=lambda f: f["snap"] == 0 and f["kind"] in ({"oracle-get", "oracle-contains", "agree", "inv", "nosv"} | COMMON_KINDS),
+    "C01": dict(engine="tree", profiles=[("tree", 8, False), ("lvl", 8, False), ("moves", 2, False), ("tree", 2, True), ("ingest", 1, False), ("drop", 1, False),
+                                         ("filter", 1, False), ("blob", 1, True), ("table", 1, False)], n_ops=120,
+                quick=520, thorough=6000, tbench=dict(quick=36, thorough=600),
+                relevant=lambda f: f["snap"] == 0 and f["kind"] in ({"oracle-get", "oracle-contains", "agree", "inv", "nosv", "point-read", "tbench-crash"} | BLOCK_KINDS | COMMON_KINDS),
                 nontrivial=TREE_NONTRIVIAL),
-    "C02": dict(engine="tree", profiles=[("tree", 4, False), ("drop", 1, False), ("ingest", 1, False)], n_ops=140,
-                quick=160, thorough=4000,
+    "C02": dict(engine="tree", profiles=[("tree", 6, False), ("drop", 2, False), ("ingest", 2, False), ("tree", 2, True), ("blob", 2, True), ("drop", 1, True),
+                                         ("lvl", 1, False), ("filter", 1, False)], n_ops=140,
+                quick=220, thorough=4000,
                 relevant=lambda f: (f["snap"] == 1 and f["kind"] in {"oracle-get", "oracle-contains", "agree", "nosv", "oracle-range", "oracle-prefix"}) or f["kind"] in COMMON_KINDS,
                 nontrivial=lambda st: TREE_NONTRIVIAL(st) and st.get("agree_snap", 0) >= 1),
-    "C03": dict(engine="tree", profiles=[("tree", 4, False), ("tree", 1, True)], n_ops=120,
-                quick=160, thorough=4000,
-                relevant=lambda f: f["kind"] in ({"oracle-range", "oracle-prefix", "oracle-len", "oracle-first", "oracle-last", "oracle-isempty", "inv"} | COMMON_KINDS),
+    "C03": dict(engine="tree", profiles=[("tree", 6, False), ("tree", 2, True), ("ingest", 2, False), ("drop", 1, False), ("lvl", 1, False), ("blob", 1, True),
+                                         ("table", 1, False), ("ingest", 1, True)], n_ops=120,
+                quick=220, thorough=4000,
+                relevant=lambda f: f["kind"] in ({"oracle-range", "oracle-prefix", "oracle-len", "oracle-first", "oracle-last", "oracle-isempty", "inv", "block-index", "block-content"} | COMMON_KINDS),
                 nontrivial=lambda st: TREE_NONTRIVIAL(st) and st.get("scans_nonempty", 0) >= 1),
     "C07": dict(engine="tree", profiles=[("tree", 3, False), ("lvl", 3, False), ("moves", 1, False), ("ingest", 1, False), ("drop", 1, False), ("tree", 1, True)], n_ops=120,
                 quick=400, thorough=6000,
@@ -450,7 +460,7 @@ PROPS = {
                 nontrivial=TREE_NONTRIVIAL),
     "C14": dict(engine="tree", profiles=[("ingest", 3, False), ("ingest", 1, True)], n_ops=120,
                 quick=160, thorough=4000,
-                relevant=lambda f: f["kind"] in ({"oracle-get", "oracle-contains", "oracle-range", "oracle-prefix", "oracle-len", "agree", "inv", "nosv", "ingest-missing", "marks", "reopen-diff", "resolve"} | COMMON_KINDS),
+                relevant=lambda f: f["kind"] in ({"oracle-get", "oracle-contains", "oracle-range", "oracle-prefix", "oracle-len", "agree", "inv", "nosv", "ingest-missing", "marks", "reopen-diff", "resolve"} | BLOCK_KINDS | COMMON_KINDS),
                 nontrivial=lambda st: TREE_NONTRIVIAL(st) and st.get("ingests", 0) >= 1),
     "C15": dict(engine="tree", profiles=[("drop", 3, False), ("drop", 1, True)], n_ops=120,
                 quick=160, thorough=4000,
@@ -524,7 +534,7 @@ TB_KINDS = {"block-bytes", "block-decode", "block-decode-back", "impl-iter", "im
             "tbench-crash"}
 PROPS["C12"] = dict(engine="tree", profiles=[("table", 3, False), ("table", 1, True)], n_ops=0,
                     quick=64, thorough=2000, tbench=dict(quick=96, thorough=6000),
-                    relevant=lambda f: f["kind"] in (TB_KINDS | {"oracle-get", "oracle-contains", "oracle-range", "readpaths", "inv", "reopen-diff", "agree", "resolve"} | COMMON_KINDS),
+                    relevant=lambda f: f["kind"] in (TB_KINDS | BLOCK_KINDS | {"oracle-get", "oracle-contains", "oracle-range", "readpaths", "inv", "reopen-diff", "agree", "resolve"} | COMMON_KINDS),
                     nontrivial=lambda st: (st.get("point_reads_hit", 0) >= 1 and st.get("blocks", 0) >= 1) or (st.get("gets_from_tables", 0) >= 1 and st.get("reopen_compared", 0) >= 1))
 
 TRUSTED_BASE = [
